@@ -414,10 +414,14 @@ func runValidate(c *kit.Ctx, w *world, cmd disruption.Command) {
 	switch r.Intn(5) {
 	case 1:
 		if len(cmd.Replacements) == 1 && len(cmd.Replacements[0].InstanceTypeOptions) > 0 {
-			it := kit.Pick(r, cmd.Replacements[0].InstanceTypeOptions)
-			for _, o := range it.Offerings {
-				o.Available = false
-			}
+			gone := kit.Pick(r, cmd.Replacements[0].InstanceTypeOptions).Name
+			w.rebuildCatalog(func(it *itSpec) {
+				if it.Name == gone {
+					for i := range it.Offs {
+						it.Offs[i].Avail = false
+					}
+				}
+			})
 			change = "replacement_option_unavailable"
 		}
 	case 2:
@@ -437,15 +441,15 @@ func runValidate(c *kit.Ctx, w *world, cmd disruption.Command) {
 		}
 		change = "pending_pod_added"
 	case 4:
-		for _, it := range w.cp.InstanceTypes {
+		w.rebuildCatalog(func(it *itSpec) {
 			if r.Chance(1, 2) {
-				for _, o := range it.Offerings {
+				for i := range it.Offs {
 					if r.Chance(1, 2) {
-						o.Available = false
+						it.Offs[i].Avail = false
 					}
 				}
 			}
-		}
+		})
 		change = "many_offerings_unavailable"
 	}
 	cons := disruption.MakeConsolidation(w.clk, w.cluster, w.c, w.prov, w.cp, w.recorder, w.queue)
